@@ -497,13 +497,13 @@ def facts(repo):
 # =====================================================================================================
 #  Dynamic part: call sequences in one process vs the same call alone in a fresh process, 1/4/16 threads
 # =====================================================================================================
-RULE = ('seeded random sequences of public calls (catalogue below: proximity/allocation/direction with varying targets, '
+RULE = ('seeded random sequences of public calls (catalogue below, ~200 entries: every public function with each backend it supports and falsy / edge parameter values (k=1, passes=0, max_distance=0, empty lists, seed 0, zfactor 0); proximity/allocation/direction with varying targets, '
         'max_distance, metric; focal mean/apply/focal_stats/hotspots/convolution with varying kernels, passes, excludes; '
         'classifiers with varying k; zonal stats/crosstab/regions/trim/crop/binary/polygonize on int then float rasters and '
         'exclusion tuples; surface functions on int32/float64/float32; perlin/generate_terrain with varying seeds; bump) '
         'executed in ONE process, every call issued twice in a row; each result (sha256 of dtype, shape and raw bytes) '
         'compared with the same call executed alone in a FRESH subprocess, and the whole sequence re-run under '
-        'NUMBA_NUM_THREADS = Dask threads in {1, 4, 16}. Sequences alternate argument TYPES for the type-specialised code '
+        'NUMBA_NUM_THREADS = Dask threads in {1, 2, 4, 16} with the threaded and the synchronous Dask scheduler; thorough tier: every catalogue entry at least once and both orders (a, b, a) of every pair of variants of the same function (at most 12 seeded pairs per function). Sequences alternate argument TYPES for the type-specialised code '
         '(int -> float -> int). A case is one call position in one sequence under one thread setting.')
 TRUSTED = [
     'the AST inventory translator of harness/props/c11.py (module-level mutable objects, mutable defaults, RNG use, jitted '
@@ -633,6 +633,65 @@ def catalogue():
     add('focal.focal_stats', dtype='float64', kernel='cross3', shape=[600, 700], stats_funcs=['mean', 'max'], big=True)
     add('focal.hotspots', dtype='float64', kernel='cross3', shape=[600, 700], big=True)
     add('convolution.convolution_2d', dtype='float64', kernel='cross3', shape=[600, 700], big=True)
+    # ---- quantifier audit: every public function, each backend it supports, falsy / edge parameter values ----
+    for fn in ('proximity.allocation', 'proximity.direction'):
+        add(fn, target_values=[1], max_distance=4.0, distance_metric='EUCLIDEAN', dtype='int32', backend='dask')
+    add('proximity.proximity', target_values=[0], max_distance=0, distance_metric='EUCLIDEAN', dtype='int32')      # falsy values
+    add('proximity.proximity', target_values=[1], max_distance='inf', distance_metric='GREAT_CIRCLE', dtype='float64')
+    for fn in ('slope.slope', 'aspect.aspect', 'curvature.curvature', 'hillshade.hillshade'):
+        add(fn, dtype='float64', backend='dask')
+    add('hillshade.hillshade', dtype='float64', azimuth=0, angle_altitude=0)
+    add('classify.quantile', k=3, backend='dask')
+    add('classify.equal_interval', k=3, backend='dask')
+    add('classify.reclassify', bins=[1, 3, 5], new_values=[10, 20, 30], backend='dask')
+    add('classify.binary', dtype='float64', values=[1.0, 3.0], backend='dask')
+    add('classify.binary', dtype='int32', values=[])
+    add('classify.quantile', k=1)
+    add('classify.equal_interval', k=1)
+    add('classify.natural_breaks', k=1)
+    add('classify.natural_breaks', k=3, num_sample=0)
+    add('classify.natural_breaks', k=7, dtype='int32')
+    add('focal.mean', passes=0)
+    add('focal.mean', passes=1, excludes=[])
+    add('focal.focal_stats', kernel='cross3', backend='dask')
+    add('focal.focal_stats', kernel='cross3', stats_funcs=[])
+    add('focal.hotspots', dtype='float64', kernel='cross3', shape=[40, 48], backend='dask')
+    add('focal.apply', dtype='float64', kernel='cross3', func='max', shape=[12, 14])
+    add('convolution.convolution_2d', dtype='float64', kernel='cross3', shape=[40, 48], backend='dask')
+    add('convolution.custom_kernel', kernel='cross3')
+    add('terrain.generate_terrain', seed_arg=5, backend='dask')
+    add('terrain.generate_terrain', seed_arg=5, zfactor=0)
+    add('perlin.perlin', seed_arg=5, freq=[0, 0])
+    add('bump.bump', count=0, spread=0)
+    for fn in ('arvi', 'gci', 'nbr', 'nbr2', 'ndmi', 'savi', 'sipi', 'ebbi'):
+        add('multispectral.' + fn, dtype='float64')
+    add('multispectral.ndvi', dtype='float64', backend='dask')
+    add('multispectral.savi', dtype='float64', soil_factor=0.0)
+    add('multispectral.true_color', dtype='float64', backend='dask')
+    add('multispectral.true_color', dtype='int32', nodata=0, c=0.0, th=0.0)
+    add('zonal.stats', dtype='float64', nodata_values=0)
+    add('zonal.stats', dtype='float64', zone_ids=[])
+    add('zonal.stats', dtype='float64', stats_funcs='custom')
+    add('zonal.stats', dtype='float64', return_type='xarray.DataArray', stats_funcs=['mean', 'sum'])
+    add('zonal.crosstab', dtype='int32', backend='dask')
+    add('zonal.crosstab', dtype='int32', agg='percentage', nodata_values=0)
+    add('zonal.crosstab', dtype='int32', zone_ids=[], cat_ids=[])
+    add('zonal.apply', dtype='int32')
+    add('zonal.trim', dtype='float64', values=[])
+    add('zonal.crop', dtype='int32', zones_ids=[])
+    add('zonal.regions', dtype='int32', neighborhood=8)
+    add('pathfinding.a_star_search', dtype='float64', connectivity=4, snap_start=True, snap_goal=True, barriers=[0, 1])
+    add('viewshed.viewshed', dtype='int32', x=0.0, y=0.0, observer_elev=0, target_elev=0)
+    add('viewshed.viewshed', dtype='float64', x=4.0, y=6.0, observer_elev=10.0, target_elev=2.0)
+    for fn, ref in [('cell_stats', False), ('combine', False), ('lesser_frequency', True), ('equal_frequency', True),
+                    ('greater_frequency', True), ('lowest_position', False), ('highest_position', False), ('popularity', True),
+                    ('rank', True)]:
+        add('local.' + fn, dtype='int32', **({'ref_var': 'a'} if ref else {}))
+    add('local.cell_stats', dtype='float64', func='max', data_vars=['a', 'c'])
+    for fn in ('utils.get_dataarray_resolution', 'utils.calc_res', 'utils.get_xy_range', 'convolution.calc_cellsize',
+               'analytics.summarize_terrain'):
+        add(fn, dtype='float64')
+        add(fn, dtype='int32', backend='dask')
     # kernel constructors (no raster argument), repeated and interleaved with the same and other shapes, and focal
     # results built on freshly constructed kernels
     add('convolution.annulus_kernel', cellsize_x=1, cellsize_y=1, outer_radius=3, inner_radius=1)
@@ -680,6 +739,18 @@ def _stack3(seed, dtype, shape):
                                 'x': np.arange(w, dtype='float64') * 2.0}, attrs={'res': (2.0, 2.0)})
 
 
+def _plus_one(x):
+    return x + 1
+
+
+def _zrange(z):
+    return z.max() - z.min()
+
+
+def _zmean(z):
+    return z.mean()
+
+
 _SHARED = {}
 
 
@@ -720,7 +791,19 @@ def prepare(d):
     if 'zones_ids' in kw:
         kw['zones_ids'] = tuple(kw['zones_ids'])
     if fn == 'bump.bump':
-        return f, (12, 10), dict(count=8, spread=2)
+        return f, (12, 10), dict(dict(count=8, spread=2), **kw)
+    if fn == 'convolution.custom_kernel':
+        return f, (kw['kernel'],), {}
+    if fn.startswith('local.'):
+        import xarray as xr
+        return f, (xr.Dataset({n: _raster(seed + i, dt, be, shape) for i, n in enumerate('abc')}),), kw
+    if fn == 'zonal.apply':
+        return f, (_raster(seed, 'int32', be, shape, 'zones'), _raster(seed + 1, dt, be, shape), _plus_one), kw
+    if kw.get('stats_funcs') == 'custom':
+        kw['stats_funcs'] = {'range': _zrange, 'mean': _zmean}
+    if fn == 'focal.apply' and 'func' in kw:
+        from xrspatial import focal
+        kw['func'] = {'max': focal._calc_max}[kw['func']]
     if fn in ('convolution.circle_kernel', 'convolution.annulus_kernel'):
         return f, (), kw
     if share:
@@ -730,7 +813,8 @@ def prepare(d):
     if fn in ('zonal.stats', 'zonal.crosstab', 'zonal.crop'):
         return f, (_raster(seed, dt, be, shape, 'zones'), _raster(seed + 1, dt, be, shape)), kw
     if fn.startswith('multispectral.'):
-        n = {'ndvi': 2, 'evi': 3, 'true_color': 3}[fname]
+        n = {'ndvi': 2, 'evi': 3, 'true_color': 3, 'arvi': 3, 'gci': 2, 'nbr': 2, 'nbr2': 2, 'ndmi': 2, 'savi': 2,
+             'sipi': 3, 'ebbi': 3}[fname]
         return f, tuple(_raster(seed + i, dt, be, shape) for i in range(n)), kw
     if fn == 'viewshed.viewshed':
         return f, (_raster(seed, dt, be, shape, 'terrain'),), kw
@@ -747,6 +831,8 @@ def call_prepared(f, args, kw):
     try:
         with contextlib.redirect_stdout(io.StringIO()), contextlib.redirect_stderr(io.StringIO()):
             res = f(*args, **kw)
+        if res is None and getattr(f, '__name__', '') == 'apply' and len(args) >= 2:
+            res = args[1]                 # zonal.apply: the result is the updated `values` raster (by contract)
         return digest(res)
     except Exception as e:
         return 'ERR:%s' % type(e).__name__, '%s: %s' % (type(e).__name__, str(e)[:80])
@@ -825,7 +911,8 @@ def worker_main():
     n = int(req.get('threads', 1))
     try:
         import dask
-        dask.config.set(scheduler='threads', num_workers=n)
+        sched = req.get('scheduler') or ('synchronous' if n == 1 else 'threads')
+        dask.config.set(scheduler=sched, num_workers=n)
     except Exception:
         pass
     out = []
@@ -839,6 +926,13 @@ def worker_main():
         r1 = call_prepared(f, args, kw)
         if req.get('twice'):
             # "repeating any call": the very same argument objects are passed again
+            if d['fn'] == 'zonal.apply':
+                # updates `values` in place BY CONTRACT: the same call means the same argument values, so rebuild them
+                f, args, kw = prepare(d)
+                a0 = args_digest(args, kw)
+                r2 = call_prepared(f, args, kw)
+                out.append([r1[0], r2[0], r1[1], False])
+                continue
             r2 = call_prepared(f, args, kw)
             out.append([r1[0], r2[0], r1[1], args_digest(args, kw) != a0])
         else:
@@ -846,13 +940,13 @@ def worker_main():
     sys.stdout.write('\n@@RESULT@@' + json.dumps(out) + '\n')
 
 
-def run_proc(calls, twice, threads, timeout=1500):
+def run_proc(calls, twice, threads, timeout=2400, scheduler=None):
     env = dict(os.environ)
     env['NUMBA_NUM_THREADS'] = str(threads)
     env['OMP_NUM_THREADS'] = str(threads)
     env['NUMBA_DISABLE_PERFORMANCE_WARNINGS'] = '1'
     p = subprocess.run([sys.executable, '-c', 'from harness.props import c11; c11.worker_main()'],
-                       input=json.dumps(dict(calls=calls, twice=twice, threads=threads)).encode(),
+                       input=json.dumps(dict(calls=calls, twice=twice, threads=threads, scheduler=scheduler)).encode(),
                        stdout=subprocess.PIPE, stderr=subprocess.PIPE, env=env, timeout=timeout)
     txt = p.stdout.decode('utf-8', 'replace')
     i = txt.rfind('@@RESULT@@')
@@ -959,9 +1053,12 @@ def run_sequences(ctx, seqs, threads_list, baseline_ids=None):
     distinct = sorted(set(x for s in seqs for x in s))
     jobs = {}
     with cf.ThreadPoolExecutor(max_workers=6) as ex:
+        def settings(si):
+            tl = threads_list[si] if isinstance(threads_list, dict) else threads_list
+            return [(t, None) if isinstance(t, int) else tuple(t) for t in tl]
         for si, s in enumerate(seqs):
-            for t in threads_list:
-                jobs[('seq', si, t)] = ex.submit(run_proc, [cat[i] for i in s], True, t)
+            for (t, sc) in settings(si):
+                jobs[('seq', si, (t, sc))] = ex.submit(run_proc, [cat[i] for i in s], True, t, 2400, sc)
         for i in distinct:
             jobs[('fresh', i)] = ex.submit(run_proc, [cat[i]], False, 1)
         res = {}
@@ -973,18 +1070,19 @@ def run_sequences(ctx, seqs, threads_list, baseline_ids=None):
                 res[k] = None
     fresh = {i: res[('fresh', i)][0] for i in distinct if res.get(('fresh', i))}
     for si, s in enumerate(seqs):
-        for t in threads_list:
-            r = res.get(('seq', si, t))
+        for (t, sc) in settings(si):
+            r = res.get(('seq', si, (t, sc)))
             if r is None:
                 continue
             for pos, (i, rr) in enumerate(zip(s, r)):
                 d1, d2, descr = rr[0], rr[1], rr[2]
                 args_changed = bool(rr[3]) if len(rr) > 3 else False
                 d = cat[i]
-                case = dict(kind='sequence-position', sequence=[cat[j] for j in s[:pos + 1]], position=pos, threads=t, call=d)
+                case = dict(kind='sequence-position', sequence=[cat[j] for j in s[:pos + 1]], position=pos, threads=t, scheduler=sc, call=d)
                 ctx.case(dict(call=d['id'], fn=d['fn'], position=pos, threads=t, seq=si))
                 ctx.count('%s/%s/%s' % (d['fn'].split('.')[-1], d['backend'], d['dtype']))
                 ctx.count('threads/%d' % t)
+                ctx.count('dask scheduler/%s' % (sc or ('synchronous' if t == 1 else 'threads')))
                 bump = d['fn'] == 'bump.bump'
                 key = 'bump-unseeded-global-rng' if bump else None
                 what_call = '%s(%s, %s, %s)' % (d['fn'], d['backend'], d['dtype'], json.dumps(d['kw'], sort_keys=True))
@@ -1013,10 +1111,33 @@ def run(ctx):
     rng = ctx.rng
     if ctx.quick():
         seqs = [gen_sequence(rng, cat, 22), gen_sequence(rng, cat, 14)]
-        threads = [1, 4, 16]
+        # thread counts {1, 2, 4, 16}; Dask schedulers: synchronous (also with 4 Numba threads) and threaded
+        threads = {0: [1, 4, 16], 1: [2, (4, 'synchronous')]}
     else:
         seqs = [gen_sequence(rng, cat, rng.randint(40, 60)) for _ in range(4)]
-        threads = [1, 4, 16]
+        threads = {i: [1, 2, 4, 16, (4, 'synchronous')] for i in range(4)}
+        # every catalogue entry at least once (each function with each backend it supports, every edge value)
+        allc = [d['id'] for d in cat if not d['kw'].get('big')]
+        rng.shuffle(allc)
+        seqs.append(allc)
+        threads[len(seqs) - 1] = [1, 4, 16]
+        # both orders of every pair of calls to the same function with different parameters: a, b, a
+        fam = {}
+        for d in cat:
+            if not d['kw'].get('big') and not d['kw'].get('share'):
+                fam.setdefault(d['fn'], []).append(d['id'])
+        pairs = []
+        for fn_, ids_ in sorted(fam.items()):
+            prs = [(ids_[x], ids_[y]) for x in range(len(ids_)) for y in range(x + 1, len(ids_))]
+            if len(prs) > 12:                 # the proximity family re-JITs per call: a seeded subset of its pairs
+                prs = rng.sample(prs, 12)
+            for (x, y) in prs:
+                pairs += [x, y, x]
+        half = len(pairs) // 2 // 3 * 3
+        for part in (pairs[:half], pairs[half:]):
+            if part:
+                seqs.append(part)
+                threads[len(seqs) - 1] = [1, 4]
     # make sure bump (documented unseeded generator) and a seeded generator after it are in every run
     bump = [d['id'] for d in cat if d['fn'] == 'bump.bump'][0]
     perl = [d['id'] for d in cat if d['fn'] == 'perlin.perlin'][0]
@@ -1073,8 +1194,8 @@ def replay_case(ctx, case):
     cat = catalogue()
     seq = case.get('sequence') or [case.get('call')]
     t = int(case.get('threads', 4))
-    r = run_proc(seq, True, t)
-    f = run_proc([seq[-1]], False, 4)
+    r = run_proc(seq, True, t, scheduler=case.get('scheduler'))
+    f = run_proc([seq[-1]], False, 1)
     d = seq[-1]
     ctx.case(dict(replay=True, fn=d['fn']))
     key = 'bump-unseeded-global-rng' if d['fn'] == 'bump.bump' else None
